@@ -1,7 +1,7 @@
 \* for every reachable test case, every API call and every argument: guard => WF afterwards
 CONSTANTS
   NObj = 2
-  Types = {"A"}
+  Types = {"A", "B"}
   MaxLen = 3
   MaxDeps = 1
   MaxUses = 1
